@@ -26,8 +26,9 @@ CONFIG = dict(
     reset_prefix="reset",
     runs={
         "quick": [dict(name="main", env={"VERIF_N": "20000"}, timeout=240)],
-        "thorough": [dict(name="main", env={"VERIF_N": "200000"}, timeout=800),
-                     dict(name="seed2", env={"VERIF_N": "100000"}, seed_offset=1000, timeout=800),
+        "thorough": [dict(name="main", env={"VERIF_N": "600000"}, timeout=800),
+                     dict(name="seed2", env={"VERIF_N": "300000"}, seed_offset=1000, timeout=800),
+                     dict(name="enum4", test="TestEnum", timeout=800),
                      dict(name="wrapslow", test="TestWrapByAlloc", timeout=600)],
     },
     trivial=r"^(ok|nopeer|bad-op)( iss= cb= sent= pend=[0-9,]*)?$",
